@@ -14,7 +14,8 @@ of the file bytes (c03_lib.expected_flat) and compares with proxy[ix] exactly.
 
 Per case:  (1) correspondence  proxy[ix] vs model;  (2) np.asarray(proxy) vs independent decode
 (once per proxy instance);  (3) DIRECT PREDICATE  proxy[ix] == np.asarray(proxy)[ix] bitwise
-(shape, dtype, bytes), NumPy raises <=> proxy raises.
+(shape, dtype, bytes), NumPy raises <=> proxy raises;  (4) HISTORY, once per proxy instance: convert (also with dtype=),
+edit every returned array in place when writeable, convert again / index: still the independent decode, never the same object.
 """
 import bz2
 import gzip
@@ -165,6 +166,9 @@ class Target:
                 full = np.asarray(self.exp).reshape(s['shape'], order=s['order'])
             else:
                 check_full(chk, self, cfg, p, full)
+                if not history_check(chk, self, cfg, p, full):
+                    s = self.spec           # the reference may have been edited through an alias: use the decode
+                    full = np.asarray(self.exp).reshape(s['shape'], order=s['order']).astype(full.dtype)
             self.cache[cfg] = (p, full, fobjs)
         return self.cache[cfg]
 
@@ -254,6 +258,69 @@ def check_full(chk, t, cfg, p, full):
                       model_output={'shape': list(s['shape']), 'head': np.asarray(exp).ravel()[:8].tolist()},
                       predicate='np.asarray(proxy) differs from the independent decode of the file bytes '
                                 '(raw stored elements transformed by the scale factors recorded in the file)')
+
+
+def history_check(chk, t, cfg, p, full):
+    """convert, EDIT THE RESULT IN PLACE (when it is writeable), convert again: every conversion and every proxy[ix]
+    must still be the independent decode of the file, and no two conversions may hand out the same object"""
+    s = t.spec
+    if int(np.prod(s['shape'])) == 0:
+        return True
+    exp = np.asarray(t.exp).reshape(s['shape'], order=s['order'])
+    why = []
+    edited = 0
+    with warnings.catch_warnings():
+        warnings.simplefilter('ignore')
+        try:
+            a = np.asarray(p)
+            a2 = np.asarray(p)
+            if a2 is a or a is full:
+                why.append('two conversions of the proxy returned the same object')
+            convs = [a]
+            for dt in (np.float64, np.float32):
+                try:
+                    d = np.asarray(p, dtype=dt)
+                except Exception:
+                    continue                      # dtype argument not supported / not castable: nothing to compare
+                if d.shape != exp.shape or not np.array_equal(d, exp.astype(dt)):
+                    why.append(f'np.asarray(proxy, dtype={np.dtype(dt)}) differs from the independent decode cast to that dtype')
+                convs.append(d)
+            for c_ in convs:                      # edit the very objects that were handed out
+                if c_.flags.writeable:
+                    c_[...] = c_ * 0 + 77 if c_.dtype.kind != 'b' else ~c_
+                    edited += 1
+            b = np.asarray(p)
+            if any(b is c_ for c_ in convs):
+                why.append('a later conversion returned an object handed out before')
+            if b.shape != exp.shape or not np.array_equal(b, exp):
+                why.append(('after an in-place edit of an earlier conversion result, np.asarray(proxy) is no longer the stored '
+                              'elements transformed by the file\'s scale factors'))
+            for dt in (np.float64,):
+                try:
+                    d = np.asarray(p, dtype=dt)
+                except Exception:
+                    continue
+                if not np.array_equal(d, exp.astype(dt)):
+                    why.append('after an in-place edit, np.asarray(proxy, dtype=float64) differs from the independent decode')
+            ix = (Ellipsis, slice(None, None, -1)) if len(s['shape']) else ()
+            g = p[ix]
+            if g.shape != exp[ix].shape or not np.array_equal(g, exp[ix]):
+                why.append('after an in-place edit of a conversion result, proxy[..., ::-1] differs from the independent decode')
+        except Exception as e:
+            why.append(f'history raised {type(e).__name__}: {str(e)[:120]}')
+    chk.count(key=('history', t.name, str(cfg)), tag='H:history:' + s['kind'])
+    chk.tagc('H:edited-in-place', edited)
+    chk.tagc('H:not-writeable', 0 if edited else 1)
+    if why:
+        C['hist_viol'] = C.get('hist_viol', 0) + 1
+        if C['hist_viol'] <= 3:
+            chk.violation('property_violation', case={'target': t.name, 'gen': t.gen, 'cfg': [str(c) for c in cfg], 'ix': '()',
+                                                      'what': 'history'},
+                          predicate='history convert / edit the returned array in place / convert again: ' + '; '.join(why))
+        else:
+            chk.violations.append(('property_violation', chk.violations[-1][1] if chk.violations else '', True))
+        return False
+    return True
 
 
 class Runner:
@@ -434,7 +501,7 @@ def run(chk: Check):
                 'reshaped proxy and ArrayProxy.reshape, zero-size images: random index tuples incl. Ellipsis/None/'
                 'bad ints/too many indices; configurations cycled over mmap{True,False,c,r} x keep_file_open x '
                 '{plain,gz,bz2,zst} x indexed_gzip{on,off} x {path, open file object re-positioned at random before '
-                'every access}. A case is non-trivial when the result is neither the whole array nor empty nor an '
+                'every access}; once per proxy instance the history convert (also with dtype=) / edit the returned arrays in place / convert and index again must still give the independent decode and never the same object. A case is non-trivial when the result is neither the whole array nor empty nor an '
                 'error; distinct by (file, index, configuration)')
     chk.assumptions = ['files are synthesised by the harness from nibabel writers / repo fixture headers: agreement of real '
                        'scanner files with these layouts is outside the claim',
@@ -1125,7 +1192,7 @@ def _replay(chk, obj):
         if t.name != c['target'] or [str(x) for x in cfg] != c['cfg']:
             return
         n0 = len(chk.violations) + len(chk.known_hits)
-        if c.get('what') == 'asarray':
+        if c.get('what') in ('asarray', 'history'):
             t.proxy(cfg, chk)
         elif ix2s(ix) == c['ix']:
             orig_case(t, cfg, ix, tag)
@@ -1140,6 +1207,7 @@ def _replay(chk, obj):
     from nibabel.ecat import EcatImage
     C['have_igzip'] = bool(openers.HAVE_INDEXED_GZIP)
     C['full_viol'] = 0
+    C['hist_viol'] = 0
     try:
         _run(chk, R, chk.workdir, chk.rng, nib, EcatImage)
     except Stop:
